@@ -13,6 +13,18 @@ from corankco.element import Element
 from corankco.ranking import Ranking
 from corankco.algorithms.pairwisebasedalgorithm import PairwiseBasedAlgorithm
 from corankco.algorithms.exact.exactalgorithmcplexforpaperoptim1 import ExactAlgorithmCplexForPaperOptim1
+from corankco.algorithms.exact.exactalgorithmpulp import ExactAlgorithmPulp
+
+
+def _exact_algorithm_for_sub_problems() -> RankAggAlgorithm:
+    """
+    The exact algorithm used on the sub-problems: the CPLEX model when CPLEX is installed, the free solver otherwise.
+    """
+    try:
+        import cplex  # pylint: disable=import-outside-toplevel,unused-import
+        return ExactAlgorithmCplexForPaperOptim1()
+    except ImportError:
+        return ExactAlgorithmPulp()
 
 
 class ParCons(RankAggAlgorithm, PairwiseBasedAlgorithm):
@@ -108,7 +120,7 @@ class ParCons(RankAggAlgorithm, PairwiseBasedAlgorithm):
                     res.extend(cons_ext)
                     optimal = False
                 else:
-                    cons_ext = ExactAlgorithmCplexForPaperOptim1().compute_consensus_rankings(
+                    cons_ext = _exact_algorithm_for_sub_problems().compute_consensus_rankings(
                         sub_problem, scoring_scheme, True).consensus_rankings[0]
                     res.extend(cons_ext)
 
